@@ -228,7 +228,7 @@ fn htlc_timeout_probe(a: &mut Vec<i128>) -> String {
 /// offered by node 0 or received by it) is saved, the channel moves on (the HTLC is claimed, revoking that
 /// commitment), and the saved transaction is then confirmed on node 1's chain. Output: 1 if node 1 broadcasts a
 /// transaction spending the HTLC's output of the revoked commitment (always 0 for a dust HTLC: there is no output).
-/// With has_output the scenario runs twice: a 3 000 sat HTLC (an output in the middle) and a 42 000 sat HTLC, worth
+/// With has_output the scenario runs twice: a 3 000 sat HTLC (an output in the middle) and a 46 000 sat HTLC, worth
 /// more than either balance and therefore the LAST output (BIP 69 order); both must be claimed.
 fn revoked_htlc_claim_probe(a: &mut Vec<i128>) -> String {
 	let (has_output, offered) = (a[0] != 0, a[1] != 0);
@@ -244,7 +244,10 @@ fn revoked_htlc_claim_probe(a: &mut Vec<i128>) -> String {
 fn revoked_htlc_claim_scenario(has_output: bool, offered: bool, big: bool) -> (bool, bool) {
 	let chanmon_cfgs = create_chanmon_cfgs(2);
 	let node_cfgs = create_node_cfgs(2, &chanmon_cfgs);
-	let node_chanmgrs = create_node_chanmgrs(2, &node_cfgs, &[None, None]);
+	let mut cfg = test_default_channel_config();
+	// the big HTLC is worth 46 % of the channel: lift the default 10 % in-flight limit
+	cfg.channel_handshake_config.announced_channel_max_inbound_htlc_value_in_flight_percentage = 100;
+	let node_chanmgrs = create_node_chanmgrs(2, &node_cfgs, &[Some(cfg.clone()), Some(cfg)]);
 	let nodes = create_network(2, &node_cfgs, &node_chanmgrs);
 	*nodes[0].connect_style.borrow_mut() = ConnectStyle::FullBlockViaListen;
 	*nodes[1].connect_style.borrow_mut() = ConnectStyle::FullBlockViaListen;
@@ -255,7 +258,7 @@ fn revoked_htlc_claim_scenario(has_output: bool, offered: bool, big: bool) -> (b
 	if big && !offered {
 		send_payment(&nodes[0], &[&nodes[1]], 50_000_000);
 	}
-	let amt = if big { 42_000_000 } else if has_output { 3_000_000 } else { 100_000 };
+	let amt = if big { 46_000_000 } else if has_output { 3_000_000 } else { 100_000 };
 	let (src, dst) = if offered { (0, 1) } else { (1, 0) };
 	let (preimage, _, _, _) = route_payment(&nodes[src], &[&nodes[dst]], amt);
 	let revoked = {
@@ -265,6 +268,9 @@ fn revoked_htlc_claim_scenario(has_output: bool, offered: bool, big: bool) -> (b
 	claim_payment(&nodes[src], &[&nodes[dst]], preimage);
 	let vout = revoked.output.iter().position(|o| o.value.to_sat() == amt / 1000);
 	if big {
+		if std::env::var("ORACLE_DEBUG").is_ok() {
+			eprintln!("revoked outputs: {:?}", revoked.output.iter().map(|o| o.value.to_sat()).collect::<Vec<_>>());
+		}
 		assert_eq!(vout, Some(revoked.output.len() - 1), "the big HTLC is meant to be the last output");
 	}
 	nodes[1].tx_broadcaster.txn_broadcasted.lock().unwrap().clear();
